@@ -550,3 +550,44 @@ def returned_for_class(cls, name, depth=0):
     import copy
 
     return T().visit(copy.deepcopy(e))
+
+
+def read_through(fn_node, simple_calls=("abs", "min", "max", "float", "int", "len")):
+    """copy of the function with every local that is assigned exactly once to a *simple* value (names, attribute reads, literals, arithmetic, abs / min / max ...)
+    written out at its uses - also where the canonical form keeps the local because the value reads a computed property more than once. For rules that ask which
+    quantities enter a formula, not when they are read."""
+    import copy
+
+    from ..canon import _Drop, _SubstAll
+
+    fn = copy.deepcopy(fn_node)
+    for _ in range(4):
+        stores, value = {}, {}
+        for n in ast.walk(fn):
+            if isinstance(n, ast.Name) and isinstance(n.ctx, (ast.Store, ast.Del)):
+                stores[n.id] = stores.get(n.id, 0) + 1
+            elif isinstance(n, ast.arg):
+                stores[n.arg] = stores.get(n.arg, 0) + 2
+        for n in ast.walk(fn):
+            if isinstance(n, ast.Assign) and len(n.targets) == 1 and isinstance(n.targets[0], ast.Name):
+                value[n.targets[0].id] = n.value
+
+        def simple(v):
+            for x in ast.walk(v):
+                if isinstance(x, ast.Call) and not (isinstance(x.func, ast.Name) and x.func.id in simple_calls):
+                    return False
+                if isinstance(x, (ast.Lambda, ast.ListComp, ast.GeneratorExp, ast.DictComp, ast.SetComp, ast.Yield, ast.Await, ast.NamedExpr, ast.IfExp, ast.Subscript)):
+                    return False
+            return True
+
+        sel = {k: v for k, v in value.items() if stores.get(k) == 1 and simple(v) and not any(isinstance(x, ast.Name) and x.id == k for x in ast.walk(v))}
+        # a value that mentions another selected name is resolved in the next round
+        sel = {k: v for k, v in sel.items() if not any(isinstance(x, ast.Name) and x.id in sel for x in ast.walk(v))}
+        if not sel:
+            break
+        fn = _Drop(sel).visit(fn)
+        t = _SubstAll(sel)
+        t._top = fn
+        fn = t.visit(fn)
+        ast.fix_missing_locations(fn)
+    return fn
